@@ -35,6 +35,12 @@ FAMILY_QUICK = "{63, 64, 65, 511, 512, 513, 4095, 4096, 4097}"
 FAMILY_THOROUGH = "{63, 64, 65, 127, 128, 129, 511, 512, 513, 1023, 1024, 1025, 4095, 4096, 4097, 8191, 8192, 8193}"
 
 
+def stage_bvref64(chk, n=8):
+    res = vlib.run_tlc(chk.work, "MC_BVRef64_run", "MC_BVRef64", cfg_consts({"N": n}) + MC_TAIL + "INVARIANT Inv\n", workers=8)
+    vlib.tlc_must_pass(res, "MC_BVRef64")
+    chk.add_tlc(res, "MC_BVRef64: the U64 (limb) reference semantics agrees with the natural-number semantics on all bit sequences <= %d bits; limb arithmetic across limb boundaries" % n)
+
+
 def stage_bvref(chk, n):
     res = vlib.run_tlc(chk.work, "MC_BVRef_run", "MC_BVRef", cfg_consts({"N": n}) + MC_TAIL + "INVARIANT Inv\n", workers=8)
     vlib.tlc_must_pass(res, "MC_BVRef")
@@ -123,9 +129,13 @@ def check_C02(chk):
     stage_bvref(chk, 9)
     stage_gen_bv(chk, bins, ["sparse"], 11 if chk.thorough else 10, FAMILY_THOROUGH if chk.thorough else FAMILY_QUICK)
     total = stage_trace(chk, bins, "sparse", "TraceBV", invariants=("ObjWellFormed",), seeds=2 if chk.thorough else 1)
+    stage_bvref64(chk)
+    total64 = stage_trace(chk, bins, "huge", "TraceBV64", extra_args=("--only", "sparse"))
+    for k, v in total64.get("widths", {}).items():
+        total.setdefault("widths", {})[k] = total.get("widths", {}).get(k, 0) + v
     widths = sparse_widths(total)
     chk.cov["low_widths_observed"] = widths
-    need = 18 if chk.thorough else 8
+    need = 30 if chk.thorough else 14
     if not chk.violations and len(widths) < need:
         raise ToolError("vacuous: only %d distinct low-part widths observed (%s), need %d" % (len(widths), widths, need))
     return chk.finish(rule="cases = (universe size, set positions, query, argument) on the Elias-Fano vector built by 5 routes; "
@@ -153,6 +163,8 @@ def check_C03(chk):
     else:
         stage_gen_rl(chk, bins, "{1, 2, 7, 8, 9, 64, 512}", 2, "{0, 1}")
     stage_trace(chk, bins, "rl", "TraceBV", invariants=("ObjWellFormed",), seeds=2 if chk.thorough else 1)
+    stage_bvref64(chk)
+    stage_trace(chk, bins, "huge", "TraceBV64", extra_args=("--only", "rl"))
     return chk.finish(rule="cases = (length, maximal runs, query, argument) on the run-length vector built by 6 routes (per run, bit at a "
                            "time, split runs that must merge, set_len before each run, conversions), plus the run iterator with its "
                            "running offset/rank; distinct = distinct (content, query, argument)")
@@ -331,6 +343,9 @@ def check_C09(chk):
     for scen, mod in (("plain", "TraceBV"), ("sparse", "TraceBV"), ("rl", "TraceBV"), ("wm", "TraceWM")):
         if chk.thorough or scen in ("plain", "wm"):
             stage_trace(chk, bins, scen, mod, variant="rel-native")
+    # universes up to usize::MAX: the arguments are then real 64-bit numbers (U64 limb triples), debug and optimized builds
+    for v in ("dbg-native", "rel-native"):
+        stage_trace(chk, bins, "huge", "TraceBV64", variant=v)
     chk.cov["exhaustive"] = True
     return chk.finish(rule="cases = (structure, call, argument) with arguments from {0,1,len-1,len,len+1,2len+7,2^32,2^62+12345,2^63,2^63+1,MAX-1,MAX}; "
                            "each replayed on a debug build (overflow checks on) and an optimized build (checks off); both must return the "
